@@ -73,3 +73,9 @@ for _k, _g in ALPHABETS.items():
 # texts of phasePlotAnnotation (localCIDER documentation, region 1..5)
 REGION_TEXT = {1: 'Globule/Tadpole', 2: 'Boundary Region', 3: 'Coils,Hairpins and Chimeras', 4: 'Negatively Charged Swollen Coils',
                5: 'Positively Charged Swollen Coils'}
+
+# documented layout of get_HTMLColorString
+HTML_OPEN = '<p style="font-family:Courier;">'
+HTML_CLOSE = '</p>'
+HTML_SPAN = ('<span style="color:', '">', '</span>')
+HTML_BREAK = '<br>'
